@@ -2178,6 +2178,12 @@ class ExpressionEvaluator(Parser):
                 condition = expr
                 false_result = rhs
                 expr = true_result if condition else false_result
+                # The result has the common type of both branches.
+                if isinstance(true_result, np.uint64) or isinstance(
+                    false_result,
+                    np.uint64,
+                ):
+                    expr = np.uint64(expr)
             else:
                 expr = self.__apply_binary_op(operator.token, expr, rhs)
 
@@ -2228,7 +2234,17 @@ class ExpressionEvaluator(Parser):
             return np.int64(bool(lhs) or bool(rhs))
         elif op == "&&":
             return np.int64(bool(lhs) and bool(rhs))
-        elif op == "|":
+
+        # A shift has the type of its left operand. All other operators
+        # apply the usual arithmetic conversions: if one operand is unsigned
+        # the other is converted to unsigned too.
+        if op in ["<<", ">>"]:
+            rhs = type(lhs)(rhs)
+        elif isinstance(lhs, np.uint64) != isinstance(rhs, np.uint64):
+            lhs = np.uint64(lhs)
+            rhs = np.uint64(rhs)
+
+        if op == "|":
             return lhs | rhs
         elif op == "^":
             return lhs ^ rhs
